@@ -145,22 +145,22 @@ class BTree(Entity):
         """Look up a key, yielding page read latency for each tree level."""
         self._total_reads += 1
 
-        node = self._root
+        # Pay one page read per level, then resolve the key in a single step.
+        # A concurrent put may split nodes or grow the tree while this generator
+        # is suspended, so a node reference held across a yield can go stale
+        # (the key may have moved to a new sibling).
         for _ in range(self._depth):
             self._total_page_reads += 1
             yield self._page_read_latency
 
-            if node.leaf:
-                idx = bisect.bisect_left(node.keys, key)
-                if idx < len(node.keys) and node.keys[idx] == key:
-                    return node.values[idx]
-                return None
-
-            # Internal node: find child
+        node = self._root
+        while not node.leaf:
             idx = bisect.bisect_right(node.keys, key)
             node = node.children[idx]
 
-        # Should not reach here, but handle edge case
+        idx = bisect.bisect_left(node.keys, key)
+        if idx < len(node.keys) and node.keys[idx] == key:
+            return node.values[idx]
         return None
 
     def get_sync(self, key: str) -> Any | None:
